@@ -578,12 +578,16 @@ class PythonTubeSolver(TubeSolver):
                     }
                 )
             else:
+                # The inner surface is a regular polygon: its facet midpoints
+                # sit at ri * cos(pi / nt), every other boundary facet at no
+                # less than (ri + dr / 2) * cos(pi / nt)
+                limit = (
+                    tube.r - tube.t + 0.5 * tol * tube.t / (tube.nr - 1)
+                ) * np.cos(np.pi / tube.nt)
                 self.mesh = self.mesh.with_boundaries(
                     {
-                        "pressure": lambda x: np.logical_and(
-                            np.sqrt(x[0] ** 2.0 + x[1] ** 2.0) > tube.r - tube.t - atol,
-                            np.sqrt(x[0] ** 2.0 + x[1] ** 2.0) < tube.r - tube.t + atol,
-                        )
+                        "pressure": lambda x: np.sqrt(x[0] ** 2.0 + x[1] ** 2.0)
+                        < limit
                     }
                 )
 
